@@ -544,9 +544,102 @@ theorem list_closed (hp : p.head? ≠ some 0) (s0 : State) : PrimClosed i (TreeO
   bumpServiceIdx s name h := h.ofTbl (tbl_bump s name) rfl rfl
   svcInsert s v hv h := h.ofTbl (tbl_svcInsert s v hv) (by simp [svcInsert]) (by simp [svcInsert])
 
-/-- the bound alone is closed under everything (no restriction on delete-tree) -/
+/-! ### the bound alone is closed under everything -/
+
+theorem KvBound.frame {s s' : State} (h : KvBound i s) (hk : s'.kvs = s.kvs) (ht : s'.tombs = s.tombs)
+    (hi : IdxLe i s'.index) : KvBound i s' :=
+  ⟨hi, by rw [hk]; exact h.kvs, by rw [ht]; exact h.tombs⟩
+
+theorem KvBound.ofTbl {s s' : State} (h : KvBound i s) (t : Tbl1 i s s') (hk : kvt s' = kvt s) : KvBound i s' :=
+  h.frame (congrArg Prod.fst hk) (congrArg Prod.snd hk) (t.ops.le h.idx)
+
+theorem bound_closed (i : Nat) : PrimClosed i (fun _ => True) (KvBound i) where
+  kvInsert s e he h := by
+    refine ⟨(tbl_kvInsert s e he).ops.le h.idx, ?_, h.tombs⟩
+    intro x hx
+    rcases mem_tupsert hx with rfl | h1
+    · omega
+    · exact h.kvs x h1
+  kvDelete s s' k hr h := by
+    have T := tbl_kvDelete hr
+    simp only [kvDeleteTxn] at hr
+    repeat' (split at hr)
+    all_goals (try simp at hr)
+    all_goals (subst hr)
+    · exact h
+    · refine ⟨T.ops.le h.idx, ?_, ?_⟩
+      · intro x hx; exact h.kvs x (mem_terase.mp hx).1
+      · intro t ht
+        rcases mem_tupsert ht with rfl | h1
+        · exact Nat.le_refl _
+        · exact h.tombs t h1
+  kvDeleteTree s d _ h := by
+    have T := tbl_kvDeleteTree (i := i) s d
+    unfold kvDeleteTreeTxn at T ⊢
+    split
+    · next hany =>
+      simp only [hany, if_true] at T
+      have hi := T.ops.le h.idx
+      refine ⟨hi, ?_, ?_⟩
+      · intro x hx
+        have : x ∈ s.kvs.filter (fun e => !prefixMatch d e.key) := by
+          split at hx <;> exact hx
+        exact h.kvs x (List.mem_filter.mp this).1
+      · intro t ht
+        split at ht
+        · rcases mem_tupsert ht with rfl | h1
+          · exact Nat.le_refl _
+          · exact h.tombs t h1
+        · exact h.tombs t ht
+    · exact h
+  removeSessionRow s id h := h.ofTbl (tbl_removeSessionRow s id) rfl
+  invalidateKeys s sess h := by
+    have hi := (tbl_invalidateKeys (i := i) s sess).ops.le h.idx
+    unfold invalidateKeys at hi ⊢
+    simp only at hi ⊢
+    split
+    · exact h
+    · next hne =>
+      simp only [hne] at hi
+      split
+      · next hb =>
+        simp only [hb] at hi
+        refine ⟨hi, ?_, h.tombs⟩
+        intro x hx
+        simp only [List.mem_map] at hx
+        obtain ⟨y, hy, rfl⟩ := hx
+        split
+        · exact Nat.le_refl _
+        · exact h.kvs y hy
+      · next hb =>
+        simp only [hb] at hi
+        exact ⟨hi, fun x hx => h.kvs x (List.mem_filter.mp hx).1, tombs_bound_foldl _ _ h.tombs⟩
+  dropSessionRefs s id h := h.ofTbl (tbl_dropSessionRefs s id) (kvt_dropSessionRefs s id)
+  checkPrep s s1 pr hc hc1 md hr h := h.ofTbl (tbl_checkPrep hr) (kvt_checkPrep hr)
+  checkFinish s pr hc md h := h.ofTbl (tbl_checkFinish s pr hc md) (kvt_checkFinish s pr hc md)
+  insertSession s x h := h.ofTbl (tbl_insertSession s x) rfl
+  pqSet s s' id sess hr h := h.ofTbl (tbl_pqSet hr) (kvt_pqSet hr)
+  pqDelete s id h := h.ofTbl (tbl_pqDelete s id) (kvt_pqDelete s id)
+  nodeInsert s n hn h := h.ofTbl (tbl_nodeInsert s n hn) (kvt_nodeInsert s n)
+  deleteCheckPre s node id x _ h := h.ofTbl (tbl_deleteCheckPre s node id x) (kvt_deleteCheckPre s node id x)
+  deleteServicePost s node id v h := h.ofTbl (tbl_deleteServicePost s node id v) (kvt_deleteServicePost s node id v)
+  deleteNodePost s name h := h.ofTbl (tbl_deleteNodePost s name) rfl
+  bumpServiceIdx s name h := h.ofTbl (tbl_bump s name) rfl
+  svcInsert s v hv h := h.ofTbl (tbl_svcInsert s v hv) (by simp [kvt, svcInsert])
+
+/-- every stored index is bounded by the index of the last applied command -/
 theorem kvBound_step {m : Nat} {s : State} (c : Cmd) (h : KvBound m s) (hmi : m ≤ i) : KvBound i (apply s i c).1 := by
-  -- use the list ladder with the trivial prefix [1] … simpler: a direct closure
-  sorry
+  by_cases hc : ∀ u, c ≠ .reap u
+  · exact pc_apply (bound_closed i) c hc (fun _ _ => trivial) (h.mono hmi)
+  · have : ∃ u, c = .reap u := by
+      cases c <;> simp at hc ⊢
+    obtain ⟨u, rfl⟩ := this
+    have hb := h.mono hmi
+    exact ⟨hb.idx, hb.kvs, fun t ht => hb.tombs t (List.mem_filter.mp ht).1⟩
+
+/-- the list query across one command (not a reap) whose tree deletes are not above the prefix -/
+theorem list_apply (hp : p.head? ≠ some 0) {m : Nat} {s : State} (c : Cmd) (hc : ∀ u, c ≠ .reap u)
+    (hT : ∀ d ∈ c.trees, TreeOk p d) (h : KvBound m s) (hmi : m ≤ i) : ListStep p i s (apply s i c).1 :=
+  pc_apply (list_closed hp s) c hc hT ⟨h.mono hmi, Or.inl ⟨rfl, rfl⟩⟩
 
 end CV.Store
